@@ -21,7 +21,7 @@ RULE = ("case = time-ordered log (0..60 lines quick; line lengths around 64/256-
 
 
 def gen_case(rng, tier):
-    kind = rng.choice(['std', 'std', 'multi', 'derived'])
+    kind = rng.choice(['std', 'std', 'multi', 'derived', 'subbrk'])
     out_of_hyp = rng.random() < 0.25
     n = rng.choice([0, 1, 2, 3, 5, 8, 13, 30, 60])
     max_run = 40
